@@ -1,12 +1,16 @@
-"""C35 — Response operators compute their documented quantity (DESIGN.md §5 C35).
+"""C35 — Response operators compute their documented quantity (DESIGN.md §5 C35; details in design.d/C35.md).
 
-Class E (exact, through the C02 engine + Driver/C35.lean): LinearInterpolator at dyadic points (all dimensions 1-3, periodic
-wrap), RegriddingOperator, FieldZeroPadder (plain/central), MaskOperator: dense matrices of all modes = Lean model.
-Oracles on the real code: interpolation reproduces random multi-affine polynomials exactly and returns grid values at grid
-points; regridding is exact on affine data; padding as documented; masks select exactly the unflagged pixels (adjoint
-zero-fills).  Class T: LOSResponse (σ=0) vs the exact rational traversal of Model/Response.lean (float32 weights in the
-code) and vs a sampled line integral; Nufft / Gridder / VariablePositionNufft vs explicit Fourier sums with an
-epsilon-dependent tolerance; nifty.re SamplingCartesianGridLOS vs the closed form on affine fields.
+Class E (exact, through the C02 engine + Driver/C35.lean): LinearInterpolator at dyadic points (1-3 D, periodic wrap, points far
+outside the grid, int64 position arrays), RegriddingOperator, FieldZeroPadder (plain/central), MaskOperator: dense matrices of
+all modes = Lean model.  LOSResponse (σ=0), three-way: code vs the exact-rational TRANSCRIPTION of `_comp_traverse`
+(Model/ResponseLos.lean, eps = 1e-7; float32 cast reproduced: two float32 ulps), code vs the independent segment model
+(Model/Response.lean; within the 1e-7 shrink), transcription vs independent model exactly inside Lean on every generic line.
+Nufft / Gridder / VariablePositionNufft: explicit Python Fourier sums (model-free) and, on a rational position lattice, the exact
+Lean model Model/Nft.lean (polynomials in ω evaluated numerically), epsilon-dependent tolerance.  nifty.re
+SamplingCartesianGridLOS: closed form on affine fields (model-free) and the exact transcription Model/ResponseSampling.lean on
+integer fields (1e-9).  Oracles on the real code only: documented periodic multilinear sum (exact), multi-affine polynomials,
+period shifts, constants; regridding exact on affine data; padding placement; mask selection; LOS = Σ field·|segment ∩ pixel|
+(per-pixel clipping, float64/complex/float32 fields); Fourier sums and the explicit derivative for the Jacobian.
 """
 import json
 import math
@@ -23,7 +27,8 @@ from . import _c35_nft as NFT
 ID = "C35"
 LEAN_MODULES = ["NiftyVerif.Props.C35", "NiftyVerif.Model.LinOpsProto", "NiftyVerif.Model.Response",
                 "NiftyVerif.Model.ResponseLos", "NiftyVerif.Model.Nft", "NiftyVerif.Model.NftProto",
-                "NiftyVerif.Model.ResponseProto", "NiftyVerif.Core.Proto"]
+                "NiftyVerif.Model.ResponseProto", "NiftyVerif.Model.ResponseSampling", "NiftyVerif.Model.Coo", "NiftyVerif.Model.CQ", "NiftyVerif.Model.LinOps",
+                "NiftyVerif.Core.Proto"]
 DRIVER = "Driver/C35.lean"
 TRANSLATORS = []
 OBLIGATIONS = ["NiftyVerif.C35." + t for t in (
@@ -31,21 +36,28 @@ OBLIGATIONS = ["NiftyVerif.C35." + t for t in (
     "regrid_exact_affine", "pad_plain_spec", "pad_central_spec", "pad_plain_sum", "mask_selects_unflagged",
     "mask_adjoint_zero_fill", "los_weights_sum", "los_outside_empty",
     "los_traverse_refines", "los_traverse_refines_zero", "los_traverse_weights_sum", "los_traverse_weights_nonneg",
-    "los_traverse_steps", "los_traverse_first_pixel", "los_clip_inside",
+    "los_traverse_steps", "los_traverse_first_pixel", "los_clip_inside", "los_clip_eq_clipBox", "los_traverse_refines_losRow",
+    "los_traverse_in_grid", "los_generic_flag_sound", "los_init_refines",
+    "sampling_los_exact_affine", "sampling_interp_exact_multiaffine",
     "nft_adjoint", "nft_mono_apply_spec", "nft_on_grid_is_dft", "nft_on_grid_is_dft_nd", "nft_shift", "nft_entry_is_phase")]
 RULE = ("one case = (operator class, generated grid / sampling points / line segments / positions / mask / accuracy); "
-        "non-trivial = the operator has at least one non-zero weight; distinct by canonical JSON of the case")
+        "non-trivial = the operator has at least one non-zero weight; distinct by canonical JSON of the case; "
+        "LOS lines: los-refine-compared = generic lines on which transcription and independent model were compared exactly")
 TRUSTED_BASE = [
     "Lean 4.33 kernel; axioms propext/Classical.choice/Quot.sound only (audited every run)",
-    "hand-written Lean models Model/Response.lean (interpolation, LOS traversal), Model/LinOps.lean (regridding, padding, mask) "
-    "tied by differential comparison",
+    "hand-written Lean models Model/Response.lean (interpolation, independent LOS segment model), Model/ResponseLos.lean "
+    "(transcription of _comp_traverse / LOSResponse.__init__), Model/Nft.lean (lattice Fourier matrix), Model/ResponseSampling.lean (transcription of nifty.re _los), Model/LinOps.lean "
+    "(regridding, padding, mask), each tied by differential comparison",
     "ducc0 nufft/wgridder kernels, scipy.sparse, jax map_coordinates: executed, compared with explicit sums / closed forms only",
-    "harness: generators, explicit O(n·m) Fourier sums, sampled line integrals",
+    "harness: generators, explicit O(n·m) Fourier sums and their derivative, per-pixel segment∩box lengths, exact periodic "
+    "multilinear sums, numerical evaluation of the model's polynomials in ω",
 ]
 ASSUMPTIONS = [
     "LOSResponse with sigmas != 0 (erfc weighting) is compared numerically only through adjointness/linearity",
-    "class T tolerances: LOS 3e-6·length (float32 weights, 1e-7 end-point fudge in the code); NFT 100·epsilon·Σ|input|",
-    "LOS comparisons are skipped when the exact model shows a sub-segment shorter than 1e-5 (line through a grid corner)",
+    "LOS: float64 rounding of the traversal is outside the model; the float32 weight cast is reproduced in the harness "
+    "(tolerance 2.5e-7·|w| + 1e-10·length against the transcription at eps = 1e-7); np.argsort ties (lines through a grid "
+    "edge/corner) are outside the refinement theorem: such lines are compared numerically and counted as non-generic",
+    "NFT: class T tolerance 100·epsilon·Σ|input| against explicit sums and against the exact lattice model",
 ]
 
 
@@ -697,13 +709,35 @@ def _lattice_process(ctx, cases, outs):
             ctx.counterexample(case, r[0], r[1])
 
 
-def _run_los_and_lattice(ctx, nlos, nlat):
-    """one driver call for both streams (every `lean --run` start costs seconds)"""
+def _corpus35(pred):
+    import glob
+    import os
+    from core.ctx import VERIF
+    out = []
+    for p in sorted(glob.glob(os.path.join(VERIF, "corpus", ID, "*.json"))):
+        try:
+            d = json.load(open(p))
+            c = d.get("case", d)
+            if pred(c):
+                out.append(c)
+        except Exception:
+            pass
+    return out
+
+
+def _run_los_and_lattice(ctx, nlos, nlat, nsamp=0):
+    """one driver call for both streams (every `lean --run` start costs seconds); corpus cases first"""
     lc = _los_cases(ctx, nlos)
     nc = [NFT.gen_lattice(ctx.rng) for _ in range(nlat)]
-    outs = ctx.model(DRIVER, lc + [NFT.model_line(c) for c in nc])
+    if nlos:
+        lc = [dict(c, eps=LOS_EPS) for c in _corpus35(lambda c: c.get("cls") == "LOSResponse")] + lc
+    if nlat:
+        nc = _corpus35(lambda c: c.get("lattice") is True) + nc
+    sc = [_gen_sampling(ctx.rng) for _ in range(nsamp)]
+    outs = ctx.model(DRIVER, lc + [NFT.model_line(c) for c in nc] + [_sampling_line(c) for c in sc])
     _los_process(ctx, lc, outs[:len(lc)])
-    _lattice_process(ctx, nc, outs[len(lc):])
+    _lattice_process(ctx, nc, outs[len(lc):len(lc) + len(nc)])
+    _sampling_process(ctx, sc, outs[len(lc) + len(nc):])
 
 
 # ------------------------------------------------------------------------------------------------ nifty.re sampling LOS
@@ -716,7 +750,51 @@ def _gen_sampling(rng):
     st = [[round(rng.uniform(0.05, 0.95) * e, 4) for e in ext] for _ in range(nlos)]
     en = [[round(rng.uniform(0.05, 0.95) * e, 4) for e in ext] for _ in range(nlos)]
     return dict(cls="SamplingCartesianGridLOS", shape=shape, dist=dist, starts=st, ends=en,
-                n=rng.choice([1, 7, 50]), coef=[rng.randint(-3, 3) for _ in range(nd + 1)])
+                n=rng.choice([1, 7, 50]), coef=[rng.randint(-3, 3) for _ in range(nd + 1)],
+                field=[rng.randint(-4, 4) for _ in range(int(np.prod(shape)))])
+
+
+def _sampling_line(case):
+    """the same float64 numbers the code sees, as exact rationals (class F inputs), for Model/ResponseSampling.lean"""
+    return dict(cls="SamplingLOS", shape=case["shape"], dist=[U.fr(d) for d in case["dist"]],
+                starts=[[U.fr(v) for v in p] for p in case["starts"]], ends=[[U.fr(v) for v in p] for p in case["ends"]],
+                n=case["n"], x=[str(v) for v in case["field"]])
+
+
+def _sampling_process(ctx, cases, outs):
+    """code (jax, float64) vs the exact transcription of `_los` on an arbitrary integer field (class T, 1e-9)"""
+    for case, m in zip(cases, outs):
+        ctx.stat("cls:" + case["cls"])
+        ctx.case(case, True)
+        r = sampling_oracle(case)
+        if r is not None:
+            ctx.counterexample(case, r[0], r[1])
+        if not isinstance(m, dict) or "vals" not in m:
+            ctx.disagree(case, {"built": True}, m, "sampling LOS model rejected a generated case")
+            continue
+        try:
+            import jax
+            jax.config.update("jax_enable_x64", True)
+            import jax.numpy as jnp
+            from nifty.re.extra.sampling_los import SamplingCartesianGridLOS
+            st, en = np.array(case["starts"]), np.array(case["ends"])
+            op = SamplingCartesianGridLOS(jnp.array(st), jnp.array(en), shape=tuple(case["shape"]),
+                                          distances=tuple(case["dist"]), n_sampling_points=case["n"])
+            got = np.asarray(op(jnp.array(np.array(case["field"], dtype=np.float64).reshape(case["shape"]))))
+        except Exception as e:
+            ctx.disagree(case, {"error": type(e).__name__}, m, "SamplingCartesianGridLOS raised on a generated case")
+            continue
+        norm = np.linalg.norm(en - st, axis=1)
+        for i, v in enumerate(m["vals"]):
+            if v is None:
+                ok = bool(np.isnan(got[i]))
+            else:
+                want = float(Fraction(v)) * norm[i]
+                ok = abs(got[i] - want) <= 1e-9 * (abs(want) + 4 * norm[i])
+            if not ok:
+                ctx.disagree(case, {"line": i, "code": float(got[i])}, {"model": v, "norm": float(norm[i])},
+                             "SamplingCartesianGridLOS vs the transcription of _los on an integer field (class T, 1e-9)")
+                break
 
 
 def sampling_oracle(case):
@@ -780,19 +858,12 @@ def shrink(case):
 
 def run(ctx):
     E.run_table(ctx, CLASSES, DRIVER, ctx.n(24, 400), ctx.n(4, 30), "C35")
-    _run_los_and_lattice(ctx, ctx.n(30, 800), ctx.n(12, 600))
+    _run_los_and_lattice(ctx, ctx.n(30, 800), ctx.n(12, 600), ctx.n(4, 100))
     for _ in range(ctx.n(120, 1500)):
         c = _gen_nft(ctx.rng)
         ctx.stat("cls:" + c["cls"])
         ctx.case(c, True)
         r = nft_oracle(c)
-        if r is not None:
-            ctx.counterexample(c, r[0], r[1])
-    for _ in range(ctx.n(4, 100)):
-        c = _gen_sampling(ctx.rng)
-        ctx.stat("cls:" + c["cls"])
-        ctx.case(c, True)
-        r = sampling_oracle(c)
         if r is not None:
             ctx.counterexample(c, r[0], r[1])
 
